@@ -28,14 +28,14 @@ def run(ctx, R):
     declare(R, delivery.RULES, RULES, FLOORS)
     M = ctx.model
     classes = [M.cls('streamz.core', n) for n in NODES]
-    delivery.check_swap_atomic(ctx, R, classes)
-    delivery.check_flush_resets(ctx, R, classes)
-    delivery.check_partition_timer(ctx, R)
-    delivery.check_timedelta_total(ctx, R)
-    delivery.check_serial_drain(ctx, R, classes)
-    delivery.check_fifo_end(ctx, R, classes)
-    delivery.check_emit_sig(ctx, R, classes)
-    delivery.check_single_consumer(ctx, R, classes)
+    R.run(delivery.check_swap_atomic, ctx, R, classes)
+    R.run(delivery.check_flush_resets, ctx, R, classes)
+    R.run(delivery.check_partition_timer, ctx, R)
+    R.run(delivery.check_timedelta_total, ctx, R)
+    R.run(delivery.check_serial_drain, ctx, R, classes)
+    R.run(delivery.check_fifo_end, ctx, R, classes)
+    R.run(delivery.check_emit_sig, ctx, R, classes)
+    R.run(delivery.check_single_consumer, ctx, R, classes)
 
 
 META['level'] += ' Durations are converted with total_seconds() (TIMEDELTA-TOTAL).'
